@@ -35,6 +35,9 @@ CHECKS = {
  'C06': ('model_checking', 'bit-precise (z3 QF_BV) symbolic execution of the Dimensions comparison operators and hash for all int8 exponent tuples; symbolic execution of Dimensions::Print over all 16384 sign patterns with std::string summarised; declared dimension sets compared with an independent unit-symbol expander',
          'The exponent vector O-unit derives from each of the 514 unit symbols equals the declared set of its type; every quantity reports its unit type\'s set; ==,!=,<,>,<=,>= and std::hash of Dimensions and Dimension::X coincide with the 7-tuple order/equality/polynomial hash for all 2^112 pairs; Print() produces the specified text on every sign pattern of the exponents.',
          'O-unit dimensions of symbols; std::to_string uninterpreted; std::string summaries', '3 C06'),
+ 'C09': ('model_checking', 'symbolic execution of clang LLVM IR of every tensor-algebra entry point; z3 nlsat decides per-component identity with mechanically expanded index-notation definitions over the reals, a K-ulp bound (relative to the sum of term magnitudes) by solver-checked local error lemmas, and the inverse-presence condition bit-precisely',
+         'Dot, cross, dyadic, magnitude, trace, determinant, transpose, cofactors, adjugate, inverse and all matrix-vector / matrix-matrix product overloads of the four classes, in three numeric types, equal the O-tensor definitions identically over the reals and within 8 ulps of the sum of term magnitudes; Inverse() is present iff the computed determinant is non-zero and equals adjugate/determinant.',
+         'standard model of rounding; "well-conditioned" replaced by the magnitude-relative bound; integer exactness follows from the REAL identity while intermediates stay below 2^p (not separately bounded)', '3 C09'),
 }
 NA = {}
 def main():
